@@ -1,5 +1,5 @@
 """C14 Cancellation safety: a dropped operation future leaves a consistent storage."""
-import os, re, subprocess, tempfile
+import os, re, struct, subprocess, tempfile
 from .gen_storage import Gen
 from . import common as C
 
@@ -100,9 +100,26 @@ def gen_closed_delete_script(rng):
     return '\n'.join(L) + '\n'
 
 
+DEFAULT_BLOOM = struct.pack('<QQQQd', 100000, 2, 8388608, 8196, 0.001).hex()     # pearl's default filter config (a 760 KiB buffer)
+
+
+def gen_offload_restore_script(rng):
+    """A restore of the active blob (the index of the last closed blob is loaded from its file: records first, then the
+    filter section, 760 KiB with the default filter config) dropped after k polls, after the filter buffers were
+    off-loaded: whatever the k, later operations -- the final close with its index dump above all -- succeed."""
+    L = ['cfg K=4 dup=1 group=2 bloom=%s init=eager runtime=%s nomodel=1' % (DEFAULT_BLOOM, rng.choice(['ct', 'ct', 'mt'])), 'open', 'nop offload-restore']
+    n = rng.choice([5, 40])
+    for i in range(n):
+        L.append('W %08x 5 - 5 %d' % (i + 1, i + 1))
+    L += ['close', 'cfgnext init=lazy', 'open', 'offload 18446744073709551615 %d' % rng.choice([0, 0, 1])]
+    L.append('cancel %d restore_active' % rng.choice([1, 2, 2, 3, 4]))
+    L += ['restore_active', 'W 00000100 6 - 5 100', 'R 00000003', 'R 00000100', 'close', 'open', 'R 00000003', 'R 00000100', 'counts', 'close']
+    return '\n'.join(L) + '\n'
+
+
 def gen(tier, rng):
     n = 220 if tier == 'quick' else 5000
-    return [('cancel%05d' % i, gen_script(rng)) for i in range(n)] + [('cdel%05d' % i, gen_closed_delete_script(rng)) for i in range(n // 4)]
+    return [('cancel%05d' % i, gen_script(rng)) for i in range(n)] + [('cdel%05d' % i, gen_closed_delete_script(rng)) for i in range(n // 4)] + [('offrest%05d' % i, gen_offload_restore_script(rng)) for i in range(n // 10)]
 
 
 def replay(lines, io, mode):
@@ -137,6 +154,19 @@ def oracle(lines, io, spec=None):
     ci = next((i for i, l in enumerate(lines) if l.startswith('cancel ')), None)
     if ci is None or ci >= len(io):
         return fails
+    if 'nop offload-restore' in lines:
+        # finding F33 (repaired): only "later operations succeed and the data is served" is judged here
+        for i in range(ci + 1, min(len(lines), len(io))):
+            l, o = lines[i], io[i]
+            if l.startswith('W ') and o != 'W ok':
+                fails.append('line %d `%s` after the cancelled restore: %s' % (i, l, o))
+            if l in ('close', 'open') and o != l + ' ok':
+                fails.append('line %d `%s` after the cancelled restore: %s' % (i, l, o))
+            if l == 'R 00000003' and o != 'R Found 5 3':
+                fails.append('line %d `%s` after the cancelled restore: %s' % (i, l, o))
+            if l == 'R 00000100' and o != 'R Found 5 100':
+                fails.append('line %d `%s` after the cancelled restore: %s' % (i, l, o))
+        return fails[:4]
     kind = lines[ci].split()[2]
     dropped = io[ci] == 'cancel dropped'
     s_none = replay(lines, io, 'none')
